@@ -802,8 +802,10 @@ def codec_part(ctx, asan, cov):
         for k, i in (("cells", 0), ("truncs", 4), ("random", 5), ("undef_cells", 6), ("fails", 9)):
             tot[k] += g[i]
         ctx.require(g[1] + g[2] == 256 and g[1] >= 1, "opcode table does not cover 256 bytes")
+        bad_entries = len(set(re.findall(r"^FAIL table (op=0x[0-9a-f]{2})", r.text(), re.M)))   # skipped by the probe, reported below
         if o == "decode-first":
-            ctx.require(g[7] == 0 and g[8] == g[1], "decode-first pass was not cold (%d encodes before it, %d of %d opcodes)" % (g[7], g[8], g[1]))
+            ctx.require(g[7] == 0 and g[8] == g[1] - bad_entries,
+                        "decode-first pass was not cold (%d encodes before it, %d of %d opcodes)" % (g[7], g[8], g[1] - bad_entries))
         if o == "interleaved":
             ctx.require(g[8] >= 8, "interleaved order decoded only %d opcodes before their first encode" % g[8])
         nfail = 0
